@@ -17,7 +17,7 @@ import contextlib, io, math, os, types
 from collections import Counter
 
 ID = "C10"
-THEOREM_MODULES = ["JF.Props.C10", "JF.Props.C10C11", "JF.Props.C10Closed"]
+THEOREM_MODULES = ["JF.Props.C10", "JF.Props.C10C11", "JF.Props.C10Closed", "JF.Props.SystemInv3Occ"]
 COMPONENTS = ["factor"]
 ASSUMPTIONS = [
     "cell half: the occupancy state handed to the taggers satisfies the invariant 'every relevant non-active unit is stored "
